@@ -26,6 +26,7 @@ type Node struct {
 	Num    int32
 	Name   string
 	Kind   protoreflect.Kind
+	Oneof  string
 	IsList bool
 	IsMap  bool
 	S      string // singular scalar
@@ -88,6 +89,9 @@ func Of(m protoreflect.Message) *Snap {
 	s := &Snap{Type: string(m.Descriptor().FullName()), Valid: m.IsValid()}
 	m.Range(func(fd protoreflect.FieldDescriptor, v protoreflect.Value) bool {
 		n := &Node{Num: int32(fd.Number()), Name: string(fd.Name()), Kind: fd.Kind()}
+		if od := fd.ContainingOneof(); od != nil {
+			n.Oneof = string(od.Name())
+		}
 		if fd.IsExtension() {
 			n.Name = "[" + string(fd.FullName()) + "]"
 		}
